@@ -2,7 +2,7 @@
 every `impl MemoryPool`, RAII, and the type-level facts."""
 from collections import Counter
 from deltas import *
-from locks import lock_hook
+from locks import lock_hook, is_lock_call
 import C16
 
 TECHNIQUE = 'static analysis: exhaustive path enumeration over MIR; symbolic counter-delta balance per path; sibling agreement of trait impls; impl/constructor census from the type-checked program'
@@ -189,6 +189,20 @@ def check_pool_impl(ctx, facts, impl, prefix=MP, trait=TRAIT, rule='pool-sibling
                     fl.add(fld)
                 continue
             committed = [x for x in ds if not (x[4] and rk == 'Err')]
+            if m == 'try_grow' and rk != 'Err' and committed:
+                # check-and-charge atomicity: the limit test and the counter update of a fallible grow are ONE critical section
+                # (one acquisition of the state lock) or ONE atomic read-modify-write (fetch_update / compare_exchange)
+                locks = [e for e in o.events if e[0] == 'callargs' and is_lock_call(e[1])]
+                if len(locks) > 1:
+                    problems.add('try_grow takes the state lock %d times on a path that grants the request (lines %s): the limit is tested in one critical '
+                                 'section and the charge is applied in another, so two concurrent requests can both pass the test and together exceed the limit'
+                                 % (len(locks), [e[3] for e in locks]))
+                if not locks:
+                    loaded = [e for e in o.events if e[0] == 'branch' and 'load(' in str(e[1])]
+                    plain = [e for e in o.events if e[0] == 'callargs' and is_atomic(e[1]) and atomic_op(e[1]) in ('fetch_add', 'store')]
+                    if loaded and plain:
+                        problems.add('try_grow decides on a separately loaded counter value and then applies the charge with %s: the test and the update are '
+                                     'not one atomic read-modify-write' % atomic_op(plain[0][1]))
             if rk == 'Err':
                 n_err += 1
                 if committed:
